@@ -8,6 +8,14 @@ impl oracle   : PANIC from the real code, or the real result differing between t
 import hashlib, re
 from vplib import sexpr
 
+MANIFEST = dict(
+    category="proof",
+    text="Coq theorems: each modelled builtin's implementation model (integer.rs/binary.rs/vector.rs control flow on machine integers and ropes) equals a plain reference spec over unbounded Z / flat byte lists and never panics, for all arguments; the model is tied to the code by differential execution of the extracted model against the real builtin functions (debug and release builds) on boundary-weighted arguments and every rope shape.",
+    design_ref="§5 C12",
+    note="Trusted: Coq kernel, extraction (ExtrOcamlBasic), OCaml driver, Rust harness, generators. integer_sin/cos go through f64/libm and are only exercised for totality. Model-coverage guard lists unmodelled builtins in the evidence.",
+    technique="Coq proof (impl model = reference spec, panic-freedom) + model/code correspondence by differential execution",
+)
+
 BOUNDARY = [0, 1, -1, 2, 7, 8, 9, 63, 64, 65, 127, 128, 255, 256, 2**31 - 1, 2**31, 2**32 - 1, 2**32, 2**32 + 1,
             2**63 - 1, 2**63, 2**63 + 1, 2**64 - 1, 2**64, 2**64 + 1, 2**70, 10**30,
             -2, -8, -64, -65, -2**31, -2**32, -2**63, -2**63 - 1, -2**64, -10**30, 16 * 1024 * 1024, 16 * 1024 * 1024 + 1]
